@@ -169,6 +169,10 @@ func corruptions(doc any, sh *jshape, defs map[string]*jshape) []c04corruption {
 			if arr, ok := val.([]any); ok && len(arr) > 0 {
 				add("array-length-short", func(v any) any { a := v.([]any); return a[:len(a)-1] })
 				add("array-length-long", func(v any) any { a := v.([]any); return append(a, deepCopy(a[0])) })
+				if len(arr) > 1 {
+					add("array-length-empty", func(v any) any { return []any{} })
+					add("array-length-double", func(v any) any { a := v.([]any); return append(append([]any{}, a...), deepCopy(a).([]any)...) })
+				}
 			}
 		case "union":
 			add("wrong-kind", func(any) any { return "not an object" })
@@ -430,7 +434,7 @@ func checkC04(cfg *core.Config) int {
 	}
 	return rep.Finish(core.Evidence{
 		Evaluations: total,
-		Rule:        "sqlprogs with jsonb columns (named structs, maps, slices of structs and unions, nested unions, enums, fixed arrays, time): documents marshalled by the compiled package from seeded values of the column's Go type are bound to the column and the generated CHECK (with the validation functions of the same script) is evaluated by a PL/pgSQL-subset interpreter with SQL three-valued logic: never FALSE/error on emitted documents; FALSE on type-directed single-point corruptions (unknown key in struct objects, value of a never-legal JSON kind, unknown union Kind, non-member enum value, fixed array one short/long); every called function defined in the script. Distinct = distinct (column, document).",
+		Rule:        "sqlprogs with jsonb columns (named structs, maps, slices of structs and unions, nested unions, enums, fixed arrays, time): documents marshalled by the compiled package from seeded values of the column's Go type are bound to the column and the generated CHECK (with the validation functions of the same script) is evaluated by a PL/pgSQL-subset interpreter with SQL three-valued logic: never FALSE/error on emitted documents; FALSE on type-directed single-point corruptions (unknown key in struct objects, value of a never-legal JSON kind, unknown union Kind, non-member enum value, fixed array one short / one long / empty / doubled); every called function defined in the script. Distinct = distinct (column, document).",
 		Assumptions: []string{"PostgreSQL is modelled, not run: harness/support/pgmodel (strict builtins, Kleene logic, CHECK passes on TRUE/NULL, left-to-right AND with short circuit, plan-time type errors)", "missing keys are not among the five corruption classes", "extra keys are only added to struct objects"},
 		Extra:       map[string]any{"programs": len(progs), "features": pr.pl.FeatureSummary()},
 	})
